@@ -123,4 +123,77 @@ Fixpoint closed_loop_controls (Fs : list (list (list T))) (x : list T) : list (l
   | F :: Fs' => let u := vneg k (mvmul k n F x) in
                 u :: closed_loop_controls Fs' (vadd n (mvmul n n A x) (mvmul n k B u))
   end.
+(* ---- operation sequences on ONE LQ object: the object's state is (P, d, F); P = None before the first
+   stationary_values of an infinite-horizon object.  horizon = Some Rf for a finite-horizon object (T given), None otherwise.
+   compute_sequence on a finite-horizon object first RESETS (P, d) to (Rf, 0), performs Teff = min(ts_length, T) updates
+   and leaves (P_0, d_0, F_0) on the object; on an infinite-horizon object it calls stationary_values only if P is None
+   and then uses the object's current F in every period. *)
+Inductive lq_op :=
+| OpUpdate
+| OpStationary
+| OpSequence (Teff : nat) (x0 : list T) (ws : list (list T)).
+Inductive lq_out := OutNone | OutPaths (xs us : list (list T)).
+Definition lq_state := (option (list (list T)) * T * option (list (list T)))%type.
+
+Definition lq_apply (horizon : option (list (list T))) (tol : T) (max_iter : Z) (gamma sqrtbeta : T)
+           (st : lq_state) (op : lq_op) : option (lq_state * lq_out) :=
+  let '(P, d, F) := st in
+  match op with
+  | OpUpdate =>
+    match P with
+    | None => None                                   (* TypeError: P is None *)
+    | Some P0 => match update_values P0 d with
+                 | None => None
+                 | Some (F', P', d') => Some ((Some P', d', Some F'), OutNone)
+                 end
+    end
+  | OpStationary =>
+    match stationary_values tol max_iter gamma sqrtbeta with
+    | None => None
+    | Some (P', F', d') => Some ((Some P', d', Some F'), OutNone)
+    end
+  | OpSequence Teff x0 ws =>
+    match horizon with
+    | Some Rf =>
+      match lq_recursion Teff Rf nzero [] with
+      | None => None
+      | Some (policies, P', d') =>
+        match lq_simulate Teff policies ws x0 with
+        | None => None
+        | Some (xs, us) => Some ((Some P', d', match rev policies with [] => F | Fl :: _ => Some Fl end), OutPaths xs us)
+        end
+      end
+    | None =>
+      let st' := match P with
+                 | Some _ => Some st
+                 | None => match stationary_values tol max_iter gamma sqrtbeta with
+                           | None => None
+                           | Some (P', F', d') => Some (Some P', d', Some F')
+                           end
+                 end in
+      match st' with
+      | Some (P1, d1, Some F1) =>
+        match lq_simulate Teff (repeat F1 Teff) ws x0 with
+        | None => None
+        | Some (xs, us) => Some ((P1, d1, Some F1), OutPaths xs us)
+        end
+      | _ => None
+      end
+    end
+  end.
+
+Fixpoint lq_run (horizon : option (list (list T))) (tol : T) (max_iter : Z) (gamma sqrtbeta : T)
+         (st : lq_state) (ops : list lq_op) : option (list (lq_state * lq_out)) :=
+  match ops with
+  | [] => Some []
+  | op :: ops' =>
+    match lq_apply horizon tol max_iter gamma sqrtbeta st op with
+    | None => None
+    | Some (st', out) =>
+      match lq_run horizon tol max_iter gamma sqrtbeta st' ops' with
+      | None => None
+      | Some l => Some ((st', out) :: l)
+      end
+    end
+  end.
 End LQ.
